@@ -279,8 +279,18 @@ func Yield(what string, pred func() bool) {
 	t.pred, t.what = nil, ""
 }
 
+// StmtPointsOff turns the statement-level points inserted by the overlay
+// generator (-points) into no-ops; set by harnesses whose executions are too
+// costly to be interleaved at statement granularity.
+var StmtPointsOff bool
+
 // Point is an explicit scheduling point with no blocking condition.
-func Point() { Yield("point", nil) }
+func Point() {
+	if StmtPointsOff {
+		return
+	}
+	Yield("point", nil)
+}
 
 // OnReset registers f to restore a shim object's virtual state at the end of
 // the current execution (for process-global mutexes).
@@ -405,6 +415,9 @@ func Explore(opt Options, body func(), check func(x *Exec) bool) Result {
 		res.Transitions += int64(x.Steps)
 		if len(x.Points) > res.MaxPoints {
 			res.MaxPoints = len(x.Points)
+		}
+		if x.Diverged == "" && len(x.Points) < len(it.prefix) {
+			x.Diverged = fmt.Sprintf("replay diverged: the execution ended after %d choice points, its prefix has %d (uncontrolled nondeterminism in the harness or the code under test)", len(x.Points), len(it.prefix))
 		}
 		if !check(x) {
 			res.Capped = "stopped by check"
